@@ -18,9 +18,17 @@ EXTENDS TraceLib, ProxyFanout
 (* via = "proxy": ProxyStore.Series with the strategy in the request; via = "querier": through   *)
 (* query.Querier.Select with partialResponse = (strategy = "WARN"); there the chunks are decoded *)
 (* by the querier and only the label sets are recorded, so the chunk clause is not judged.        *)
-Judge(e) ==
+(* outs[k].lbl[j] = [api: "names" | "values", err, nwarn, named, got, fwd]: LabelNames /          *)
+(* LabelValues of the same ProxyStore over the same stores (a store with a failure point answers  *)
+(* them with an error), same strategy; got = the names (values of label 1) returned.               *)
+JudgeLabels(e) ==
+    UNION { UNION { C06LabelClauses(e.in, e.in.strategy, e.outs[k].lbl[j].api, e.outs[k].lbl[j].err, e.outs[k].lbl[j].nwarn,
+                                    e.outs[k].lbl[j].named, Rng(e.outs[k].lbl[j].got)) : j \in DOMAIN e.outs[k].lbl } : k \in DOMAIN e.outs }
+JudgeSeries(e) ==
     UNION { C06Clauses(e.in, e.in.strategy, e.outs[k].err, e.outs[k].nwarn, e.outs[k].named, e.outs[k].series)
               \ (IF e.outs[k].via = "querier" THEN {"healthy-chunks-returned"} ELSE {}) : k \in DOMAIN e.outs }
+
+Judge(e) == JudgeSeries(e) \cup JudgeLabels(e)
 
 VARIABLE l
 TraceInit == l = 1
